@@ -68,6 +68,13 @@ impl Randomable<f64> for Range<f64> {
     fn gen_from_u64(self, rng: u64) -> f64 {
         assert!(!self.is_empty());
         let len = self.end - self.start;
-        (rng as f64 / u64::MAX as f64) * len + self.start
+        // 53 random bits give a ratio in [0, 1); rounding of `ratio * len + start` can still reach `end`
+        let ratio = (rng >> 11) as f64 / (1u64 << 53) as f64;
+        let res = ratio * len + self.start;
+        if res < self.end {
+            res
+        } else {
+            self.start
+        }
     }
 }
